@@ -118,7 +118,7 @@ def gen_case(rng):
 def main():
     R = vf.Report(PID)
     proved = R.proof_step()
-    n = 15000 if R.thorough else 1500
+    n = 60000 if R.thorough else 1500
     cases = [(["t", [["i", 0], ["i", 0]]], ["d", {"k": ["i", 0]}], "S T", ["d", {"k": ["t", [["i", 0], ["i", 0]]]}]),
              (["t", [["i", 0], ["i", 0]]], ["d", {"k": ["i", 0]}], "T S", ["d", {"k": ["t", [["i", 0], ["i", 0]]]}]),
              (["t", [["i", 0], ["i", 0]]], ["i", 0], "... T", ["d", {"w": ["t", [["i", 0], ["i", 0]]], "b": ["n"]}]),
@@ -139,7 +139,7 @@ def main():
     # fails after partial progress (the array check then rolls the context back WHILE the structured check is under way)
     ARRL = [["arr", "Float", "a b"], ["union", [["arr", "Float", "a"], ["arr", "Float", "a b"]]], ["union", [["arr", "Float", "a 7"], ["arr", "Float", "a b"]]],
             ["union", [["arr", "Int", "a b"], "int", ["arr", "Float", "a b"]]], ["tuple", [["arr", "Float", "a b"], ["union", [["arr", "Float", "b"], ["arr", "Float", "q b"]]]]]]
-    narr = 2500 if R.thorough else 250
+    narr = 15000 if R.thorough else 250
     for k in range(narr):
         t, s, form, x = gen_case(R.rng)
         L = R.rng.choice(ARRL)
@@ -149,7 +149,7 @@ def main():
     # structure strings, well- and ill-formed
     strs = ["T", "S T", "T ...", "... T", "...", "... ...", "... T ...", "", "  ", "T,S", "1T", "T ... S", "a b c ...", "... a b c", "T  ...", " T ", "T\t...", "T...", "...T", "T .. .", "T . . .",
             "_x y2", "T ... ...", "... ... T", "T-S", "T ...S", "class", "None"]
-    for _ in range(300 if R.thorough else 60):
+    for _ in range(3000 if R.thorough else 60):
         toks = [R.rng.choice(["T", "S", "...", "a1", "_", "1x", "T,", "..", "....", "x.y"]) for _ in range(R.rng.choice([1, 1, 2, 2, 3, 4]))]
         strs.append(R.rng.choice([" ", "  ", "\t"]).join(toks))
     vsess = [{"nocontext": True, "steps": [tstep(s_, ["i", 0])]} for s_ in strs]
